@@ -325,6 +325,8 @@ def addressed_selection(ctx, rule='C07.R4', only=None):
 
 
 def run(ctx):
+    from .configtime import late_binding_closures as _late
+    _late(ctx, 'C07.R2', classes=('Container', 'Plate', 'PlateSlicer', 'Slicer'))
     from . import c01
     from ..fresh import Fresh
     from ..effects import mutating_call_oracle
